@@ -304,8 +304,13 @@ impl Model for M {
                             if !proof_stale {
                                 return Err(Fail::new("latched-with-fresh-proof", ctx("latched although the last proof is younger than the window")));
                             }
-                            if !(inflight >= self.set.min_in_flight || m.pulled) {
-                                return Err(Fail::new("latched-without-backlog", ctx("latched without the configured backlog and without being held by the silence pull")));
+                            // "held by the silence pull" is judged at this decision (the pull's own release rule is
+                            // applied first): a pull that this very decision releases does not hold the link
+                            if !(inflight >= self.set.min_in_flight || pulled) {
+                                return Err(Fail::new(
+                                    "latched-without-backlog",
+                                    ctx(&format!("latched without the configured backlog and without being held by the silence pull (pulled before this decision: {}, after: {pulled})", m.pulled)),
+                                ));
                             }
                         }
                         // latch falling edge
@@ -488,6 +493,8 @@ fn settings(tier: Tier) -> Vec<Setting> {
         v.push(Setting { rtt: 100, min_in_flight: 32, ceiling: 3000 });
         v.push(Setting { rtt: 0, min_in_flight: 1, ceiling: 500 });
         v.push(Setting { rtt: 600, min_in_flight: 1, ceiling: 3000 });
+        // a ceiling below the 1000 ms floor, with an RTT baseline
+        v.push(Setting { rtt: 100, min_in_flight: 1, ceiling: 400 });
     } else {
         for rtt in [0u64, 20, 100, 250, 600, 2000] {
             for (min_in_flight, ceiling) in [(32, 3000u64), (1, 500), (1, 20_000), (32, 20_000)] {
@@ -510,7 +517,7 @@ fn models(tier: Tier) -> Vec<(String, Arc<M>, Vec<Plan>)> {
         let d = 0usize;
         if tier.is_quick() {
             let m = Arc::new(M::new(2, set, 0));
-            out.push((m.name.clone(), m, vec![Plan::Full { depth: 5 }]));
+            out.push((m.name.clone(), m, vec![Plan::Full { depth: 6 }]));
             let m = Arc::new(M::new(2, set, 1));
             let alt = alt_default(&m, 250);
             out.push((
